@@ -6,7 +6,9 @@ import (
 	"encoding/binary"
 	"errors"
 	"fmt"
+	"google.golang.org/grpc"
 	"io"
+	"math"
 	"math/rand"
 	"net/http"
 	"net/http/httptest"
@@ -109,7 +111,7 @@ func feedClientKind(body io.ReadCloser, status int, kind Kind) clientResult {
 	var ms0, ms1 runtime.MemStats
 	runtime.ReadMemStats(&ms0)
 	res.pan = guard(func() {
-		st, err := ch.NewStream(ctx, kind.StreamDesc(), kind.Method())
+		st, err := ch.NewStream(ctx, kind.StreamDesc(), kind.Method(), c07CallOpts...)
 		if err != nil {
 			res.err = err
 			return
@@ -142,6 +144,10 @@ func feedClientKind(body io.ReadCloser, status int, kind Kind) clientResult {
 }
 
 const allocSlack = 8 << 20
+
+// c07CallOpts: call options of the client under test (callers that lift gRPC's own size limits are common;
+// the fixed limit of this wire protocol is not theirs to lift).
+var c07CallOpts []grpc.CallOption
 
 // perMessageLimit is the library's fixed per-message limit (maxMessageSize in
 // httpgrpc/io.go), read from the source at start-up; 100 MiB if it cannot be read.
@@ -317,7 +323,11 @@ func checkC07(e *core.Env) {
 		tail := r.Intn(40)
 		b.Write(randBytes(r, tail))
 		e.Note("prefix=%d after %d messages, %d tail bytes", pfx, nm, tail)
+		if i%2 == 1 {
+			c07CallOpts = []grpc.CallOption{grpc.MaxCallRecvMsgSize(math.MaxInt32), grpc.MaxCallSendMsgSize(math.MaxInt32)}
+		}
 		res := feedClient(&cutBody{data: b.Bytes(), endErr: io.EOF}, 200)
+		c07CallOpts = nil
 		e.Eval(fmt.Sprintf("client-prefix|%d|%d", pfx, nm), true)
 		w := map[string]any{"prefix": pfx, "messages_before": nm, "tail_bytes": tail, "alloc_bytes": res.alloc, "got_messages": len(res.msgs), "got_err": fmt.Sprint(res.err)}
 		sig := "client-prefix/" + prefixClass(pfx)
@@ -527,6 +537,9 @@ func checkC07(e *core.Env) {
 				first := hr[0]
 				if first.Err == nil && (cut < fb.msgEnds[0] || !sameMsg(first.Msg, msgs[0])) {
 					e.Violate(sig+"/fabricated", fmt.Sprintf("request body cut at offset %d of a %d-byte first frame: the handler was given a message", cut, fb.msgEnds[0]), w)
+				}
+				if first.Err == nil && !(cut == fb.msgEnds[0] && end.err == io.EOF) {
+					e.Violate(sig+"/unclean-end-accepted", fmt.Sprintf("the request body is one frame of %d bytes followed by %d more bytes and ends with %s: the handler was handed the message as if the request had ended cleanly after it", fb.msgEnds[0], cut-fb.msgEnds[0], end.name), w)
 				}
 				if cut > 0 && cut < fb.msgEnds[0] && first.Err == io.EOF {
 					e.Violate(sig+"/truncation-as-eof", fmt.Sprintf("request body cut inside its only frame (offset %d of %d): the handler saw a clean end of stream", cut, fb.msgEnds[0]), w)
